@@ -85,6 +85,35 @@ func init() {
 		}
 		return "ok " + strings.Join(out, ",")
 	})
+	// the same string parsed twice; the first result is scribbled over in between (parameter maps emptied and refilled, byte
+	// sequences overwritten, labels replaced): the second result is that of a first parse
+	register("sh.parse.twice", func(args []string) string {
+		in := string(ofHex(args[0]))
+		first, err := sh.ParseParameterisedList(in)
+		if err == nil {
+			for i := range first {
+				for k, v := range first[i].Params {
+					if b, ok := v.([]byte); ok {
+						for j := range b {
+							b[j] ^= 0xff
+						}
+					}
+					delete(first[i].Params, k)
+				}
+				first[i].Params["injected"] = int64(1)
+				first[i].Label = "scribbled"
+			}
+		}
+		pl, err := sh.ParseParameterisedList(in)
+		if err != nil {
+			return "err"
+		}
+		out := []string{}
+		for _, pi := range pl {
+			out = append(out, showPI(pi))
+		}
+		return "ok " + strings.Join(out, ",")
+	})
 	register("sh.parse.ll", func(args []string) string {
 		ll, err := sh.ParseListOfLists(string(ofHex(args[0])))
 		if err != nil {
